@@ -19,7 +19,9 @@ Definition spec_result (o : op) (seq : list Z) : outcome :=
   | OTake k => Ret (firstn k seq)
   | OGet k => match nth_error seq k with Some v => Ret [v] | None => Raise EIndexError end
   | OCount => Ret [Z.of_nat (length seq)]
-  | OContains _ | OBetween _ _ _ | OBefore _ _ | OAfter _ _ => result o (consume o seq)
+  | OContains _ | OBetween _ _ _ | OBefore _ _ | OAfter _ _ | OXafter _ _ _ => result o (consume o seq)
+  | OSliceTo k => Ret (firstn k seq)
+  | ONegIdx k => match nth_error (rev seq) k with Some v => Ret [v] | None => Raise EIndexError end
   end.
 
 (* what an iterator may have delivered at any moment: a prefix of seq *)
